@@ -13,6 +13,6 @@ Extraction "model.ml"
   page_new page_from_bytes page_eqb page_id get_pixel set_pixel set_all_pixels wf_pageb total_bytes data_bytes bpc
   vinit vstep vrun bus_step bus_run
   configure configure_if_needed send_pages load_next_page show_loaded_page shut_down create_page sign_width sign_height
-  run_script run_bus chunks16
+  run_script run_bus run_cops_script chunks16
   frame_read frame_write serial_process odk_process wire_step run_wire wire_step_s run_wire_s
   configure_port serial_bus_try_new odk_try_new.
